@@ -87,6 +87,11 @@ crate::harnesses! { REG;
         let b13: DF13 = MontFp!("0b1100");
         let o13: DF13 = MontFp!("0o14");
         let lz: DF13 = MontFp!("0007");
+        let lz2: DF13 = MontFp!("0012");
+        let lz3: HF251 = MontFp!("-00100");
+        let ux: HF251 = MontFp!("0XFA");
+        let ub: DF13 = MontFp!("0B1100");
+        let lzb: BigInt<1> = ark_ff::BigInt!("00077");
         let h251: HF251 = MontFp!("0xfa");
         let n251: HF251 = MontFp!("-0xfb");
         let w: DW64a = MontFp!("18446744073709551556");
@@ -101,6 +106,8 @@ crate::harnesses! { REG;
         crate::cover!(one13.val() == 1);
         let mut ok = one13.val() == 1 && m1_13.val() == 12 && p13.val() == 0 && pp13.val() == 1 && b13.val() == 12 && o13.val() == 12 && lz.val() == 7;
         ok &= h251.val() == 250 && n251.val() == 0;
+        // leading zeros do not change the radix; upper-case radix prefixes are accepted (0O.. is left out: a parser that rejects it fails the BUILD, which is not a reportable violation)
+        ok &= lz2.val() == 12 && lz3.val() == 151 && ux.val() == 250 && ub.val() == 12 && lzb.0[0] == 77;
         ok &= w == -DW64a::from(1u64) && wm == w && m127 == -DM127::from(1u64) && fr == frp && fr == -DFr381::from(1u64);
         ok &= b1.0[0] == u64::MAX && b2.0 == [0, 1] && b4 == b4h && b4.0 == [u64::MAX; 4];
         assert!(ok);
